@@ -30,6 +30,9 @@ ASSUMPTIONS = [
     'header fields are naturals in the model (negative attribute values are not generated)',
     'rx_filter_iff is stated for an outstanding request with an even netfn (a request)',
     'no transport passes rs_lun= to rx_filter (checked on the AST of pyipmi/interfaces/*.py each run)',
+    'the filter model is a function of (request header, flags, frame) only: frames go through the real rx_filter in '
+    'one process and each is compared with the model / judged by the specification on its own; a reported case '
+    'carries the preceding calls (last 8 + earlier calls with the same frame bytes + its whole sequence)',
 ]
 TRUSTED = ['harness/translate/ipmb.py', 'harness/props/c03.py']
 
@@ -77,7 +80,17 @@ def real_encode(vals, data):
 # the rx_filter calls made so far in this process (most recent last): a reported case carries them,
 # because the replay runs in a new process and the property gives the filter no memory
 HISTORY = 8
-_recent = collections.deque(maxlen=HISTORY)
+_calls = []                                   # every (req, flags, frame) given to rx_filter in this process
+_by_frame = collections.defaultdict(list)     # frame -> indices into _calls
+
+
+def _history(n, frame, window=HISTORY):
+    """of the first n calls of this process: the last `window` ones and (first and last 4 of) the earlier calls
+    that were given the very same frame bytes"""
+    same = [i for i in _by_frame.get(frame, ()) if i < n - window]
+    if len(same) > 8:
+        same = same[:4] + same[-4:]
+    return tuple(_calls[i] for i in same) + tuple(_calls[max(0, n - window):n])
 
 
 def real_filter(vals, flags, frame, header=None):
@@ -85,7 +98,8 @@ def real_filter(vals, flags, frame, header=None):
     kw = dict((k, c == '1') for k, c in zip(FLAGS, flags))
     if flags == DEFAULT_FLAGS:
         kw = {}          # exercise the keyword defaults themselves
-    _recent.append((vals, flags, frame))
+    _by_frame[frame].append(len(_calls))
+    _calls.append((vals, flags, frame))
     h = header if header is not None else _mk_header(vals)
     r = _outcome(lambda: rx_filter(h, frame, **kw))
     if r[0] != 'ok':
@@ -235,25 +249,21 @@ def _before(recent):
     return [[list(r), fl, lean.hexs(f)] for r, fl, f in recent]
 
 
-def judge_filter(ctx, drv, req, flags, frame, kind, model=None, spec=None, header=None, before=None):
-    """`header`: a long-lived request-header object to use (None: a fresh one); `before`: the calls that
-    precede this one in its sequence (None: the last HISTORY calls of this process)"""
-    recent = tuple(_recent) if before is None else before
+def judge_filter(ctx, drv, req, flags, frame, kind, model=None, spec=None, header=None, before=0):
+    """`header`: a long-lived request-header object to use (None: a fresh one); `before`: how many calls
+    precede this one in its sequence (they all go into the reported case, + the HISTORY calls before them)"""
+    n0 = len(_calls)
     real = real_filter(req, flags, frame, header)
     case = {'op': 'filter', 'req': list(req), 'flags': flags, 'frame': lean.hexs(frame), 'kind': kind}
-    if real != 'ok 0' or spec == '1':
+    if real != 'ok 0' or spec == '1' or spec is None or model not in (None, real):
         # only a case that may be reported carries its history
-        case['before'] = _before(recent)
+        case['before'] = _before(_history(n0, frame, HISTORY + before))
         case['same_header'] = header is not None
     if model is not None and model != real:
         if not (model.startswith('py:') and real.startswith('py:')):
-            case.setdefault('before', _before(recent))
-            case.setdefault('same_header', header is not None)
             ctx.disagree('rx_filter', case, model, real)
     if spec is None:
         spec = drv.ask('isreply %s %s %s' % (hs(req), flags, lean.hexs(frame)))
-        case.setdefault('before', _before(recent))
-        case.setdefault('same_header', header is not None)
     return _judge_filter_outcome(ctx, drv, case, real, frame, kind, spec)
 
 
@@ -388,7 +398,7 @@ def _run_filter(ctx, drv, rng, n_req, n_corrupt_frames, all_flags_for):
         models = drv.ask_many(['flt %s %s %s' % (hs(req), fl, lean.hexs(f)) for f in muts])
         for f, m in zip(muts, models):
             ctx.case(('corrupt', req, fl, f))
-            recent = tuple(_recent)
+            n0 = len(_calls)
             real = real_filter(req, fl, f)
             if m != real:
                 ctx.disagree('rx_filter', {'op': 'filter', 'req': list(req), 'flags': fl, 'frame': lean.hexs(f),
@@ -398,7 +408,7 @@ def _run_filter(ctx, drv, rng, n_req, n_corrupt_frames, all_flags_for):
                 ctx.violate('C03:rx_filter:accepts:corrupted-%s' % ('header' if pos < 3 else 'payload'),
                             'rx_filter does not reject a reply with one corrupted byte (offset %d)' % pos,
                             {'op': 'filter', 'req': list(req), 'flags': fl, 'frame': lean.hexs(f), 'kind': 'corruption',
-                             'intact': lean.hexs(frame), 'before': _before(recent), 'same_header': False},
+                             'intact': lean.hexs(frame), 'before': _before(_history(n0, f)), 'same_header': False},
                             expected='False', observed=real)
         ctx.count('filter:single-byte-corruption', len(muts))
         ctx.count('corruption-frames')
@@ -489,8 +499,7 @@ def _run_filter_histories(ctx, drv, rng, n_req):
             ctx.case(('flt-seq', req, flags, tuple(b[2] for b in before), frame), nontrivial=len(before) > 0)
             ctx.count('filter-sequence:' + (kind if not kind.startswith('short') else 'runt-after-' + (
                 before[-1][3] if before and not before[-1][3].startswith('short') else 'runt' if before else 'nothing')))
-            judge_filter(ctx, drv, req, flags, frame, kind, m, sp, header=header,
-                         before=tuple((r, fl, f) for r, fl, f, _ in before))
+            judge_filter(ctx, drv, req, flags, frame, kind, m, sp, header=header, before=len(before))
             before.append((req, flags, frame, kind))
         ctx.count('filter-sequences')
     ctx.sample({'op': 'filter-sequence', 'req': list(seqs[0][0]), 'flags': seqs[0][1],
